@@ -76,6 +76,22 @@ func (v *SimVault) beforeWrite(label string) (bool, error) {
 	return true, nil
 }
 
+// ack models the time a durable write takes: the caller gets its answer WriteLatUs
+// of simulated time after the write was applied. Answers that fall on the same
+// instant are handed out one at a time by the scheduler (seam "wa:"), so the order
+// in which the engine learns of its writes is decided by the seed as well.
+func (v *SimVault) ack(writeSeq int, path, op string) {
+	us := v.w.Spec.Policy.WriteLatUs
+	if us <= 0 {
+		return
+	}
+	time.Sleep(time.Duration(us) * time.Microsecond)
+	if !v.w.Park(v.gen, "wa: "+op+" "+path) {
+		return
+	}
+	v.w.Log(Event{Gen: v.gen, Kind: EvWriteAck, Obj: path, Op: op, Ref: writeSeq})
+}
+
 func stLabel(s *workflow.State) string {
 	if s == nil {
 		return "nil"
@@ -92,7 +108,7 @@ func (v *SimVault) UpdatePlan(ctx context.Context, p *workflow.Plan) error {
 	st := snapState(p.State)
 	st.Reason = int(p.Reason)
 	err = v.Vault.UpdatePlan(ctx, p)
-	v.w.Log(Event{Gen: v.gen, Kind: EvWrite, Obj: path, Op: "UpdatePlan", W: &st, Err: errStr(err)})
+	v.ack(v.w.Log(Event{Gen: v.gen, Kind: EvWrite, Obj: path, Op: "UpdatePlan", W: &st, Err: errStr(err)}), path, "UpdatePlan")
 	return err
 }
 
@@ -104,7 +120,7 @@ func (v *SimVault) UpdateBlock(ctx context.Context, b *workflow.Block) error {
 	}
 	st := snapState(b.State)
 	err = v.Vault.UpdateBlock(ctx, b)
-	v.w.Log(Event{Gen: v.gen, Kind: EvWrite, Obj: path, Op: "UpdateBlock", W: &st, Err: errStr(err)})
+	v.ack(v.w.Log(Event{Gen: v.gen, Kind: EvWrite, Obj: path, Op: "UpdateBlock", W: &st, Err: errStr(err)}), path, "UpdateBlock")
 	return err
 }
 
@@ -116,7 +132,7 @@ func (v *SimVault) UpdateChecks(ctx context.Context, c *workflow.Checks) error {
 	}
 	st := snapState(c.State)
 	err = v.Vault.UpdateChecks(ctx, c)
-	v.w.Log(Event{Gen: v.gen, Kind: EvWrite, Obj: path, Op: "UpdateChecks", W: &st, Err: errStr(err)})
+	v.ack(v.w.Log(Event{Gen: v.gen, Kind: EvWrite, Obj: path, Op: "UpdateChecks", W: &st, Err: errStr(err)}), path, "UpdateChecks")
 	return err
 }
 
@@ -128,7 +144,7 @@ func (v *SimVault) UpdateSequence(ctx context.Context, s *workflow.Sequence) err
 	}
 	st := snapState(s.State)
 	err = v.Vault.UpdateSequence(ctx, s)
-	v.w.Log(Event{Gen: v.gen, Kind: EvWrite, Obj: path, Op: "UpdateSequence", W: &st, Err: errStr(err)})
+	v.ack(v.w.Log(Event{Gen: v.gen, Kind: EvWrite, Obj: path, Op: "UpdateSequence", W: &st, Err: errStr(err)}), path, "UpdateSequence")
 	return err
 }
 
@@ -140,7 +156,7 @@ func (v *SimVault) UpdateAction(ctx context.Context, a *workflow.Action) error {
 	}
 	st := snapAction(a)
 	err = v.Vault.UpdateAction(ctx, a)
-	v.w.Log(Event{Gen: v.gen, Kind: EvWrite, Obj: path, Op: "UpdateAction", W: &st, Err: errStr(err)})
+	v.ack(v.w.Log(Event{Gen: v.gen, Kind: EvWrite, Obj: path, Op: "UpdateAction", W: &st, Err: errStr(err)}), path, "UpdateAction")
 	return err
 }
 
